@@ -105,6 +105,8 @@ def comp_names(c):
 
 # ------------------------------------------------------------------ real objects
 def build_objects(c):
+    import logging
+    logging.getLogger("distribution").setLevel(logging.CRITICAL)   # driver process only: no log noise
     from pydcop.dcop.objects import Variable, Domain, AgentDef
     from pydcop.dcop.dcop import DCOP
     from pydcop.dcop.relations import constraint_from_str
